@@ -31,6 +31,11 @@ def _init():
     _W['A'] = absval.Abs(hs)
 
 
+def row_keys(grids):
+    """the keys each row dict holds, in their order (a dump must not add, drop or re-order entries of the rows it reads)"""
+    return [[[absval.cps(str(k)) for k in r.keys()] for r in g] for g in grids]
+
+
 def _walk(args):
     """one walk: start document (format, text), seeded ops -> list of events"""
     wid, fmt, text, steps, sd = args
@@ -57,10 +62,11 @@ def _walk(args):
             ev = {'op': 'dump_' + f, 'i': i, 'j': j, 'exc': ''}
             try:
                 before = A.doc(val)
+                kb = row_keys(val)
                 t1 = hs.dump(val, mode=mode(f))
                 t2 = hs.dump(val, mode=mode(f))
                 after = A.doc(val)
-                ev.update(before=before, after=after)
+                ev.update(before=before, after=after, kb=kb, ka=row_keys(val))
                 if f == 'zinc':
                     ev.update(text=absval.cps(t1), text2=absval.cps(t2))
                 else:
@@ -111,7 +117,7 @@ def _walk(args):
     # every event carries every field (records of one shape for TLC)
     for ev in evs:
         for k, d in (('i', 0), ('j', 0), ('text', []), ('text2', []), ('tree', [0]), ('tree2', [0]), ('before', []),
-                     ('after', []), ('q6', []), ('out', []), ('outq6', []), ('t1', []), ('t2', []), ('fmt', '')):
+                     ('after', []), ('q6', []), ('out', []), ('outq6', []), ('t1', []), ('t2', []), ('fmt', ''), ('kb', []), ('ka', [])):
             ev.setdefault(k, d)
     return wid, evs
 
@@ -133,7 +139,12 @@ def run(tier):
         key = [i for i, m in enumerate(meta) if m.get('t') == 'scalar' and m['kind'] in ('ref', 'dt', 'num', 'qty', 'xstr', 'uri', 'time',
                                                                                       'coord', 'bin', 'str')
                and (m['ver'] == '3.0' or m['kind'] in ('ref', 'dt'))]
-        rest = [i for i in range(len(docs)) if i not in set(key)]
+        # a date-time whose UTC instant lies outside the calendar (0001-01-01T00:00+14:00) loses its zone name when parsed
+        # and cannot be given one again: not an instant a grid can carry through a dump (C17: ValueError is permitted)
+        beyond = ('edge_max_gmt5', 'edge_min_gmtm14')
+        key = [i for i in key if meta[i].get('payload') not in beyond]
+        rest = [i for i in range(len(docs)) if i not in set(key) and meta[i].get('payload') not in beyond
+                and meta[i].get('payload2') not in beyond]
         rng.shuffle(rest)
         sel = key + rest[:60 if tier == 'quick' else 400]
         docs2 = [json.loads(json.dumps(docs[i])) for i in sel]
@@ -204,12 +215,17 @@ def run(tier):
         single = [p for p in plans if p['t'] == 'single']
         for _ in range(nj):
             p = rng.choice(single)
-            grid = cat.place(p, rng.choice(cat.labels(p['kind'])))
+            grid = cat.place(p, rng.choice([l for l in cat.labels(p['kind']) if l not in beyond]))
             try:
                 jt = hs.dump(grid if rng.random() < 0.7 else [grid, grid], mode=hs.MODE_JSON)
             except Exception:
                 continue
             jobs.append((len(jobs) + 1, 'json', jt, rng.randint(6, 10), rng.randrange(1 << 30)))
+        # documents whose rows leave cells out (a JSON row object lists only the cells it has)
+        for ver in ('2.0', '3.0'):
+            for rows in ('[{"a":"n:1"},{"c":"s:x"},{}]', '[{"b":"m:"},{"a":"n:2","c":"n:3"}]', '[{}]', '[{"c":"s:only last"}]'):
+                jt = '{"meta":{"ver":"%s"},"cols":[{"name":"a"},{"name":"b"},{"name":"c"}],"rows":%s}' % (ver, rows)
+                jobs.append((len(jobs) + 1, 'json', jt, rng.randint(6, 10), rng.randrange(1 << 30)))
         with multiprocessing.get_context('fork').Pool(NCPU, initializer=_init) as pool:
             walks = dict(pool.map(_walk, jobs, chunksize=4))
         traces = [walks[j[0]] for j in jobs]
